@@ -138,6 +138,13 @@ def run(prop, tier):
         extra_eval += lc.get("partners", 0)
         tot["states"] += lc.get("states", 0)
         tot["generated"] += lc.get("generated", 0)
+    if prop in ("C01", "C02", "C03", "C05"):
+        from . import wlhard
+        wl = wlhard.collect(prop, tier, rep)
+        extra["wl_hard_reaction_pairs"] = wl
+        extra_eval += wl["hard_pairs"] + wl["auto_pairs"]
+        tot["states"] += wl["states"]
+        tot["generated"] += wl["generated"]
     if prop == "C05":
         from . import vf2trace
         mc = vf2trace.model_check(tier)
